@@ -6,6 +6,7 @@ package desc
 import (
 	"encoding/json"
 	"fmt"
+	"math"
 	"reflect"
 	"strconv"
 	"strings"
@@ -48,6 +49,13 @@ type V struct {
 	E   []V     `json:"e,omitempty"`  // elements / struct fields (by index) / pointer target (1 element)
 	K   []V     `json:"mk,omitempty"` // map keys, parallel to E
 	DT  *T      `json:"dt,omitempty"` // dynamic type of an interface value
+	// Share > 0 on a pointer value: use the Share-th pointer of this pointer type
+	// that this Build has already completed (aliasing: the same sub-object is
+	// reachable twice).  Only completed pointers can be shared, so no cycle arises.
+	// If fewer exist, the pointer is built from E as usual.
+	Share int `json:"share,omitempty"`
+	// NegZero: the float value is negative zero (F cannot carry it through JSON's omitempty)
+	NegZero bool `json:"negzero,omitempty"`
 }
 
 // Str makes a string value descriptor.
@@ -179,11 +187,15 @@ func typeLocked(t T) reflect.Type {
 // Build materialises a value descriptor as an addressable value of type ty.
 func Build(ty reflect.Type, v V) reflect.Value {
 	out := reflect.New(ty).Elem()
-	fill(out, v)
+	fill(&buildCtx{ptrs: map[reflect.Type][]reflect.Value{}}, out, v)
 	return out
 }
 
-func fill(dst reflect.Value, v V) {
+type buildCtx struct {
+	ptrs map[reflect.Type][]reflect.Value // completed non-nil pointers by type, in order of completion
+}
+
+func fill(ctx *buildCtx, dst reflect.Value, v V) {
 	ty := dst.Type()
 	if ty == scalarTypes["time"] {
 		if !v.Nil && v.I != 0 {
@@ -201,26 +213,35 @@ func fill(dst reflect.Value, v V) {
 	case reflect.Uint, reflect.Uint8, reflect.Uint16, reflect.Uint32, reflect.Uint64, reflect.Uintptr:
 		dst.SetUint(v.U)
 	case reflect.Float32, reflect.Float64:
-		dst.SetFloat(v.F)
+		if v.NegZero {
+			dst.SetFloat(math.Copysign(0, -1))
+		} else {
+			dst.SetFloat(v.F)
+		}
 	case reflect.Ptr:
+		if v.Share > 0 && !v.Nil && len(ctx.ptrs[ty]) >= v.Share {
+			dst.Set(ctx.ptrs[ty][v.Share-1])
+			return
+		}
 		if v.Nil || len(v.E) == 0 {
 			return
 		}
 		p := reflect.New(ty.Elem())
-		fill(p.Elem(), v.E[0])
+		fill(ctx, p.Elem(), v.E[0])
 		dst.Set(p)
+		ctx.ptrs[ty] = append(ctx.ptrs[ty], p)
 	case reflect.Slice:
 		if v.Nil {
 			return
 		}
 		s := reflect.MakeSlice(ty, len(v.E), len(v.E))
 		for i := range v.E {
-			fill(s.Index(i), v.E[i])
+			fill(ctx, s.Index(i), v.E[i])
 		}
 		dst.Set(s)
 	case reflect.Array:
 		for i := 0; i < ty.Len() && i < len(v.E); i++ {
-			fill(dst.Index(i), v.E[i])
+			fill(ctx, dst.Index(i), v.E[i])
 		}
 	case reflect.Map:
 		if v.Nil {
@@ -232,9 +253,9 @@ func fill(dst reflect.Value, v V) {
 				break
 			}
 			k := reflect.New(ty.Key()).Elem()
-			fill(k, v.K[i])
+			fill(ctx, k, v.K[i])
 			e := reflect.New(ty.Elem()).Elem()
-			fill(e, v.E[i])
+			fill(ctx, e, v.E[i])
 			m.SetMapIndex(k, e)
 		}
 		dst.Set(m)
@@ -244,7 +265,7 @@ func fill(dst reflect.Value, v V) {
 			if !f.CanSet() {
 				f = reflect.NewAt(f.Type(), unsafe.Pointer(f.UnsafeAddr())).Elem()
 			}
-			fill(f, v.E[i])
+			fill(ctx, f, v.E[i])
 		}
 	case reflect.Interface:
 		if v.Nil || v.DT == nil || len(v.E) == 0 {
